@@ -468,17 +468,33 @@ pub fn scratch_base() -> PathBuf {
 
 pub struct Scratch {
     pub path: PathBuf,
+    pub vfs: bool,
+}
+
+/// In-memory directories unless VERIF_REAL_FS=1.
+pub fn default_vfs() -> bool {
+    std::env::var("VERIF_REAL_FS").map(|v| v != "1").unwrap_or(true)
 }
 
 impl Scratch {
     pub fn new() -> Scratch {
+        Scratch::with_mode(default_vfs())
+    }
+    pub fn with_mode(vfs: bool) -> Scratch {
         let n = DIR_COUNTER.fetch_add(1, Ordering::SeqCst);
         let path = scratch_base().join(format!("d{}", n));
         std::fs::create_dir_all(&path).expect("create scratch dir");
-        Scratch { path }
+        if vfs {
+            vh::fs::vfs_enable(&path);
+        }
+        Scratch { path, vfs }
     }
     /// Empties the directory.
     pub fn reset(&self) {
+        if self.vfs {
+            vh::fs::vfs_set_files(&self.path, &BTreeMap::new());
+            return;
+        }
         if let Ok(rd) = std::fs::read_dir(&self.path) {
             for e in rd.flatten() {
                 let p = e.path();
@@ -505,6 +521,9 @@ pub fn cleanup_scratch_base() {
 
 /// Sorted listing of the directory: (name, length) of every entry.
 pub fn list_dir(dir: &Path) -> Vec<(String, u64)> {
+    if vh::fs::vfs_enabled(dir) {
+        return vh::fs::vfs_list(dir);
+    }
     let mut v: Vec<(String, u64)> = std::fs::read_dir(dir)
         .map(|rd| {
             rd.flatten()
@@ -521,6 +540,40 @@ pub fn list_dir(dir: &Path) -> Vec<(String, u64)> {
     v
 }
 
+/// All regular files of the directory: name -> bytes.
+pub fn read_image(dir: &Path) -> BTreeMap<String, Vec<u8>> {
+    if vh::fs::vfs_enabled(dir) {
+        return vh::fs::vfs_files(dir);
+    }
+    let mut img = BTreeMap::new();
+    for (name, _) in list_dir(dir) {
+        if dir.join(&name).is_file() {
+            if let Ok(bytes) = std::fs::read(dir.join(&name)) {
+                img.insert(name, bytes);
+            }
+        }
+    }
+    img
+}
+
+/// Makes the directory hold exactly the files of `image`.
+pub fn set_image(dir: &Path, image: &BTreeMap<String, Vec<u8>>) {
+    if vh::fs::vfs_enabled(dir) {
+        vh::fs::vfs_set_files(dir, image);
+        return;
+    }
+    if let Ok(rd) = std::fs::read_dir(dir) {
+        for e in rd.flatten() {
+            if !image.contains_key(&e.file_name().to_string_lossy().into_owned()) {
+                let _ = std::fs::remove_file(e.path());
+            }
+        }
+    }
+    for (name, bytes) in image {
+        std::fs::write(dir.join(name), bytes).expect("write image file");
+    }
+}
+
 pub fn wal_name(n: u64) -> String {
     format!("wal-{:020}", n)
 }
@@ -535,20 +588,10 @@ pub fn wal_number(name: &str) -> Option<u64> {
 
 /// Reads all WAL files of a directory: (file number, bytes), sorted.
 pub fn read_wal_files(dir: &Path) -> Vec<(u64, Vec<u8>)> {
-    let mut v = vec![];
-    for (name, _) in list_dir(dir) {
-        if let Some(n) = wal_number(&name) {
-            if let Ok(bytes) = std::fs::read(dir.join(&name)) {
-                v.push((n, bytes));
-            }
-        }
-    }
+    let mut v: Vec<(u64, Vec<u8>)> = read_image(dir)
+        .into_iter()
+        .filter_map(|(name, bytes)| wal_number(&name).map(|n| (n, bytes)))
+        .collect();
     v.sort();
     v
-}
-
-pub fn write_image(dir: &Path, files: &[(u64, Vec<u8>)]) {
-    for (n, bytes) in files {
-        std::fs::write(dir.join(wal_name(*n)), bytes).expect("write image file");
-    }
 }
